@@ -569,35 +569,37 @@ func TestC18Payload(t *testing.T) {
 			}
 			return c
 		},
-		Check: func(c c18PayloadCase) *kit.Verdict {
-			v := &kit.Verdict{NonTrivial: c.Input != ""}
-			v.Label("origin=%s", c.Origin)
-			got, err := parsePacketPayload(c.Input)
-			ref, tri := gram.RefPayload(c.Input)
-			if err != nil {
-				v.Label("refused")
-				if c.Canonical {
-					return v.Failf("canonical rendering %q refused: %v", clip(c.Input), err)
-				}
-				return v
-			}
-			v.Label("accepted")
-			if c.Canonical && !bytes.Equal(got, c.Value) {
-				return v.Failf("rendering %q of %x parsed back to %x", clip(c.Input), c.Value, got)
-			}
-			switch tri {
-			case gram.Undecided:
-				v.Label("dont-care-raw-non-utf8")
-			case gram.Reject:
-				return v.Failf("accepted %q as %x, but the reference refuses it", clip(c.Input), got)
-			default:
-				if !bytes.Equal(got, ref) {
-					return v.Failf("accepted %q as %x, reference %x", clip(c.Input), got, ref)
-				}
-			}
-			return v
-		},
+		Check: c18CheckPayload,
 	})
+}
+
+func c18CheckPayload(c c18PayloadCase) *kit.Verdict {
+	v := &kit.Verdict{NonTrivial: c.Input != ""}
+	v.Label("origin=%s", c.Origin)
+	got, err := parsePacketPayload(c.Input)
+	ref, tri := gram.RefPayload(c.Input)
+	if err != nil {
+		v.Label("refused")
+		if c.Canonical {
+			return v.Failf("canonical rendering %q refused: %v", clip(c.Input), err)
+		}
+		return v
+	}
+	v.Label("accepted")
+	if c.Canonical && !bytes.Equal(got, c.Value) {
+		return v.Failf("rendering %q of %x parsed back to %x", clip(c.Input), c.Value, got)
+	}
+	switch tri {
+	case gram.Undecided:
+		v.Label("dont-care-raw-non-utf8")
+	case gram.Reject:
+		return v.Failf("accepted %q as %x, but the reference refuses it", clip(c.Input), got)
+	default:
+		if !bytes.Equal(got, ref) {
+			return v.Failf("accepted %q as %x, reference %x", clip(c.Input), got, ref)
+		}
+	}
+	return v
 }
 
 // ------------------------------------------------------------------ exclusion file (parse level; semantics in C02)
